@@ -48,13 +48,21 @@ def children(ty: Ty, x):
                     out.append((ty.a[0], e, f"._inner[{i}]"))
         elif k == 'union':
             # descend into the first member the typed value structurally belongs to
-            for j, m in enumerate(ty.a):
-                if typed_matches(m, x):
-                    out.append((m, x, f"<member {j}>"))
-                    break
+            j = union_member_of(ty, x)
+            if j is not None:
+                out.append((ty.a[j], x, f"<member {j}>"))
     except Exception:
         return []
     return out
+
+
+def union_member_of(ty: Ty, x):
+    """Index of the first member x structurally belongs to (an `Any` member only if nothing else matches)."""
+    for strict in (True, False):
+        for j, m in enumerate(ty.a):
+            if typed_matches(m, x, 0, strict):
+                return j
+    return None
 
 
 def locate(ty: Ty, x, fails, path='$', depth=0):
@@ -81,7 +89,7 @@ def contains(ty: Ty, pred, depth=0):
     return depth < 10 and any(contains(c, pred, depth + 1) for c in kids)
 
 
-def typed_matches(ty: Ty, x, depth=0):
+def typed_matches(ty: Ty, x, depth=0, strict=False):
     """Shallow structural test: is typed value x plausibly a value of AST type ty?"""
     import collections
     import datetime
@@ -98,34 +106,45 @@ def typed_matches(ty: Ty, x, depth=0):
     if k in simple:
         return type(x) is simple[k]
     if k == 'none': return x is None
-    if k == 'any': return True
+    if k == 'any': return not strict
     if k == 'date': return type(x) is datetime.date
     if k == 'time': return type(x) is datetime.time
     if k == 'datetime': return type(x) is datetime.datetime
-    if k == 'path': return isinstance(x, pathlib.PurePath)
-    if k == 'pattern': return isinstance(x, re.Pattern)
+    if k == 'path':
+        want = {'PurePosixPath': pathlib.PurePosixPath, 'PurePath': pathlib.PurePosixPath, 'PathLike': pathlib.PurePosixPath,
+                'Path': pathlib.PosixPath, 'PosixPath': pathlib.PosixPath}[ty.x['cls']]
+        return type(x) is want
+    if k == 'pattern':
+        return isinstance(x, re.Pattern) and type(x.pattern) is (bytes if ty.x.get('of') == 'bytes' else str)
     if k in ('sub', 'dc'): return type(x) is py_class(ty)
     if k == 'enum': return isinstance(x, py_class(ty))
     if k == 'lit': return any(type(x) is type(v) and x == v for v in ty.x['vals'])
-    if k == 'list': return type(x) is list and all(typed_matches(ty.a[0], e, depth + 1) for e in x[:4])
-    if k == 'seq': return type(x) is tuple and all(typed_matches(ty.a[0], e, depth + 1) for e in x[:4])
-    if k == 'deque': return type(x) is collections.deque and all(typed_matches(ty.a[0], e, depth + 1) for e in list(x)[:4])
-    if k == 'set': return type(x) is (set if ty.x['res'] == 'set' else frozenset) and all(typed_matches(ty.a[0], e, depth + 1) for e in list(x)[:4])
-    if k == 'tup': return type(x) is tuple and len(x) == len(ty.a) and all(typed_matches(c, e, depth + 1) for c, e in zip(ty.a, x))
+    if k == 'list': return type(x) is list and all(typed_matches(ty.a[0], e, depth + 1, strict) for e in x[:4])
+    if k == 'seq': return type(x) is tuple and all(typed_matches(ty.a[0], e, depth + 1, strict) for e in x[:4])
+    if k == 'deque': return type(x) is collections.deque and all(typed_matches(ty.a[0], e, depth + 1, strict) for e in list(x)[:4])
+    if k == 'set': return type(x) is (set if ty.x['res'] == 'set' else frozenset) and all(typed_matches(ty.a[0], e, depth + 1, strict) for e in list(x)[:4])
+    if k == 'tup': return type(x) is tuple and len(x) == len(ty.a) and all(typed_matches(c, e, depth + 1, strict) for c, e in zip(ty.a, x))
     if k == 'dict':
         want = {'dict': dict, 'OrderedDict': collections.OrderedDict, 'defaultdict': collections.defaultdict}[ty.x.get('res', 'dict')]
-        return type(x) is want and all(typed_matches(ty.a[1], v, depth + 1) for v in list(x.values())[:4]) \
-            and all(typed_matches(ty.a[0], kk, depth + 1) for kk in list(x.keys())[:4])
-    if k == 'counter': return type(x) is collections.Counter and all(typed_matches(ty.a[0], e, depth + 1) for e in list(x)[:4])
+        return type(x) is want and all(typed_matches(ty.a[1], v, depth + 1, strict) for v in list(x.values())[:4]) \
+            and all(typed_matches(ty.a[0], kk, depth + 1, strict) for kk in list(x.keys())[:4])
+    if k == 'counter': return type(x) is collections.Counter and all(typed_matches(ty.a[0], e, depth + 1, strict) for e in list(x)[:4])
     if k == 'struct': return type(x) is dict and set(x) == set(ty.x['keys'])
-    if k == 'union': return any(typed_matches(m, x, depth + 1) for m in ty.a)
-    if k == 'cond': return typed_matches(ty.a[0], x, depth + 1)
+    if k == 'union': return any(typed_matches(m, x, depth + 1, strict) for m in ty.a)
+    if k == 'cond':
+        if not typed_matches(ty.a[0], x, depth + 1, strict):
+            return False
+        from . import conds as C
+        try:
+            return all(C.pred(c)(x) for c in ty.x['conds'])
+        except Exception:
+            return False
     if k == 'tagged': return any(type(x) is py_class(v) for v in ty.a)
     if k == 'ndarray': return type(x).__name__ == 'ndarray'
     if k == 'vol':
         if type(x).__name__ != 'ValueOrList':
             return False
         inner = [x._inner] if x._is_val else list(x._inner)[:4]
-        return all(typed_matches(ty.a[0], e, depth + 1) for e in inner)
+        return all(typed_matches(ty.a[0], e, depth + 1, strict) for e in inner)
     if k == 'range': return type(x).__name__ == 'Range'
     return False
